@@ -27,6 +27,9 @@ fn record(ctx: &mut Ctx, pipeline: &str, d1: String, d2: String) {
     if d1 != d2 {
         ctx.violate("repeat_identical", &format!("C18:in_process_repeat_differs:{pipeline}"), format!("{pipeline}: two runs on equal inputs in one process gave different outputs"), json!({"pipeline": pipeline}));
     }
+    // one evaluation per pipeline execution pair; distinct = distinct output digests
+    ctx.rep.evaluations += 1;
+    ctx.rep.nontrivial(mix(hash_str(&format!("{pipeline}:{d1}"))));
     ctx.rep.digests.insert(format!("{}:{pipeline}", ctx.case), d1);
 }
 
@@ -204,7 +207,11 @@ fn parallel_batch(ctx: &mut Ctx, rng: &mut Rng) {
     if n_fail > 0 {
         ctx.count("obs.batches_with_failing_elements");
     }
-    ctx.rep.nontrivial(mix(hash_str(&format!("batch:{}:{n}:{n_fail}", ctx.case))));
+    // distinct = (batch size, failing elements, content of the serial results); trivial = single-element batches
+    if n >= 2 {
+        let content: String = serial.iter().map(|(ok, s)| format!("{ok}:{:?};", s.loco_unit.state.energy_out.value.to_bits())).collect();
+        ctx.rep.nontrivial(mix(hash_str(&format!("batch:{n}:{n_fail}:{content}"))));
+    }
     if ctx.rep.samples.len() < 2 {
         ctx.rep.sample(json!({"batch_elements": n, "failing_elements": really_failing, "pool_sizes": [1, 2, 3, 4, 6, 8, 12, 16], "repetitions_per_pool": 2}));
     }
@@ -253,7 +260,6 @@ pub fn run_c18(ctx: &mut Ctx, rng: &mut Rng, _t: bool) {
         parallel_batch(ctx, rng);
     } else {
         pipelines(ctx, rng);
-        ctx.rep.nontrivial(mix(hash_str(&format!("pipe:{}", ctx.case))));
         if ctx.rep.samples.len() < 2 {
             ctx.rep.sample(json!({"pipelines": ["LocomotiveSimulation::walk", "ConsistSimulation::walk", "TrainSimBuilder+SetSpeedTrainSim::walk", "TrainSimBuilder+SpeedLimitTrainSim steps", "make_est_times", "run_dispatch"],
                 "compared": "two runs in this process + the same case in several fresh processes (digests exported to the driver)"}));
